@@ -300,6 +300,52 @@ def check_single_links(ctx, P, vectors, rule_of=None, floor_rule="R05.1"):
     ctx.floor(rule_of(floor_rule), "single-link cells evaluated", n_cells, 8 * len(vectors))  # + the respelled tables
 
 
+def check_shared_source(ctx, P, vectors, rule_of=None):
+    """One face that is the source of two links of different kind in one call (a same-axis link from one neighbour, an
+    axis-swapping link from another - every corner of a cubed sphere): which array a halo is cut from is decided per link."""
+    from ..affsel import flatten_concat
+
+    rule_of = rule_of or (lambda r: r)
+    fi = P.func("padding:_pad_face_connections")
+    for first_swapped in (False, True):
+        # faces 0 and 1 both take their right halo along AX from face 2: one across a same-axis link, one across a swapping link
+        k0, k1 = ((True, AY), (False, AX)) if first_swapped else ((False, AX), (True, AY))
+        t = {0: {AX: (None, (2, k0[1], False))}, 1: {AX: (None, (2, k1[1], False))}, 2: {AX: ((0 if not k0[0] else 1, AX, False), None), AY: ((0 if k0[0] else 1, AX, False), None)}}
+        for vector in vectors:
+            inst = f"one face the source of a same-axis and of an axis-swapping link ({'swapping' if first_swapped else 'same-axis'} link met first), {vector or 'scalar'}"
+            try:
+                outs = run(P, {FACE: t}, vector=vector, n_faces=3, prune=True)
+            except Unmodelled as e:
+                ctx.unknown(rule_of("R05.5" if vector else "R05.1"), inst, str(e))
+                continue
+            bad = None
+            for o in outs:
+                if o.kind != "return":
+                    bad = f"raises {o.value} (line {getattr(getattr(o.exc, 'node', None), 'lineno', '?')})"
+                    continue
+                try:
+                    faces, facedim, trim = face_parts(o.value)
+                    for f, (swap, _) in ((0, k0), (1, k1)):
+                        _, leaves = flatten_concat(faces[f], FACE, axis_of_dim)
+                        forms = [norm_form(x) for x in leaves]
+                        if [x.face for x in forms] != [f, 2]:
+                            bad = bad or f"face {f} is assembled from faces {[x.face for x in forms]}; expected its own cells and the halo from face 2"
+                            continue
+                        want = "PARTNER" if (vector and swap) else "MAIN"
+                        if forms[1].base != want:
+                            bad = bad or (f"the halo of face {f} across its {'axis-swapping' if swap else 'same-axis'} link is cut from the {'partner' if forms[1].base == 'PARTNER' else 'same'} component of face 2, "
+                                          f"which is also the source of the other face's {'same-axis' if swap else 'axis-swapping'} link; it must be the {'partner' if want == 'PARTNER' else 'same'} component")
+                except Unmodelled as e:
+                    ctx.unknown(rule_of("R05.5" if vector else "R05.1"), inst, str(e))
+                    bad = None
+                    break
+            else:
+                if bad:
+                    ctx.report(rule_of("R05.5" if vector else "R05.1"), fi, inst, bad)
+                else:
+                    ctx.ok(rule_of("R05.5" if vector else "R05.1"), inst, "each halo from the component its own link prescribes")
+
+
 def check_one_sided(ctx, P, rule_of=None):
     """A halo requested on one side only, {AX: (0, w)} or {AX: (w, 0)}, on a face linked on both sides: the requested side is
     still assembled from its neighbour (whether the other side is built and trimmed away again, or skipped, is immaterial)."""
@@ -435,6 +481,7 @@ def check(ctx):
     fi = P.func("padding:_pad_face_connections")
     check_link_cells(ctx, P, (None, "parallel", "tangential"))
     check_single_links(ctx, P, (None, "parallel", "tangential"))
+    check_shared_source(ctx, P, (None, "parallel", "tangential"))
     check_one_sided(ctx, P)
     for rule, sub in (("R05.4", _check_prepad_and_trim), ("R05.6", _check_open_edges)):
         try:
